@@ -71,6 +71,7 @@ static void gen_traffic(Rng &r, J &ops, const std::string &at, const std::string
 		static const char *bodies[4] = {"rnd", "zero", "ff", "text"};
 		op.set("body", bodies[r.range(0, 3)]);
 		op.set("dst", dst); op.set("src", at == "srv" ? "ext" : at);
+		if (r.chance(0.07)) { static const char *shapes[] = {"v6", "short_iplen", "long_iplen", "noip"}; op.set("shape", shapes[r.range(0, 3)]); }
 		ops.push(op);
 	}
 }
